@@ -5,7 +5,7 @@ from __future__ import annotations
 import ast
 
 from ..cfg import CFG, typestate, witness, calls_at
-from ..loader import AnalysisError, Repo, body_nodoc, dotted, norm, walk_no_nested, enclosing, strip_cast
+from ..loader import AnalysisError, Repo, body_nodoc, dotted, norm, walk_no_nested, enclosing, strip_cast, qualname
 from ..pdu_model import PduModel
 from ..report import Report
 from .c01 import code_layout
@@ -622,6 +622,26 @@ def check_message_reset(repo: Repo, rep: Report) -> None:
                 break
         rep.check(ok_a, "message-reset", fq, site, f"`self.{attr}` is accumulated while a message is received but not reset when the message is complete: it keeps growing over the whole association, so a limit or test written for one message eventually fires on an ordinary, conformant message (the association is aborted after enough traffic)", mod=dm, node=site, path=[f"L{x.line}" for x in w_a if x.ast is not None][-10:])
     rep.check(ok, "message-reset", fq, "complete message ... exit without `self.message = None`", "a path leaves receive_primitive after a message was completed without dropping the message object: the next message's fragments are appended to the finished one (its command set then decodes with stale elements, or not at all)", mod=dm, node=tests[0].ast, path=[f"L{x.line}" for x in w if x.ast is not None][-10:])
+    # the reassembly state belongs to the provider: nobody else writes it. A message the peer has sent half of is
+    # dropped (or replaced) by a write from another module - the remaining fragments then decode into an empty
+    # message that cannot be converted back into a primitive
+    ini = repo.func("dimse", "DIMSEServiceProvider.__init__")
+    own = {t.attr for a in walk_no_nested(ini) if isinstance(a, (ast.Assign, ast.AnnAssign)) for t in (a.targets if isinstance(a, ast.Assign) else [a.target]) if isinstance(t, ast.Attribute) and norm(t.value) == "self"}
+    state = {x for x in own if x in ("message",) or x.startswith("_msg") or "fragment" in x}
+    rep.need("message" in own, "dimse.DIMSEServiceProvider.__init__ no longer sets self.message")
+    from .c27 import pkg_modules
+
+    n_w = 0
+    for short, m in pkg_modules(repo):
+        if short == "dimse" or short.startswith(("apps.", "tests.", "benchmarks.")):
+            continue
+        for a in ast.walk(m.tree):
+            tgts = a.targets if isinstance(a, ast.Assign) else [a.target] if isinstance(a, (ast.AnnAssign, ast.AugAssign)) else [t for t in a.targets] if isinstance(a, ast.Delete) else []
+            for t in tgts:
+                if isinstance(t, ast.Attribute) and t.attr in state and (norm(t.value).endswith(".dimse") or norm(t.value) == "dimse"):
+                    n_w += 1
+                    rep.fail("message-reset", f"{short}.{qualname(a)}", a, f"`{norm(t)}` is written outside DIMSEServiceProvider: the message being reassembled from the peer's fragments belongs to receive_primitive alone - dropping it while a multi-fragment message is half received makes the remaining fragments an invalid message (Evt19, the association is aborted) and the primitive the peer sent is lost", mod=m, node=a)
+    rep.ok("message-reset", f"pynetdicom :: reassembly state {sorted(state)} written only by DIMSEServiceProvider", f"{n_w} foreign writes")
 
 
 def check_every_pdv_classified(repo: Repo, rep: Report, rule: str = "reader-bits") -> None:
